@@ -23,6 +23,10 @@ ASSUMPTIONS = [
 NONTRIVIAL_FLOOR = {"quick": 100, "thorough": 1000}
 
 
+# thorough tier: coverage-guided (atheris) drive of the same generator and oracle: kind -> (shards, cases per shard)
+FUZZ = {"generated": (8, 1500)}
+
+
 def plan(tier):
     total = 2000 if tier == "quick" else 40000
     return [("generated", 16, total // 16)]
